@@ -223,7 +223,9 @@ def run(res, tier):
         if recorded >= 5:
             nontrivial.add(src)
         for kind, text in v[:2]:
-            if zero_trip(src) and any(kind in f["signature"]["kinds"] for f in findings):
+            # F-C14-4 shows as the Python int 0 where an integer of the DSL was inferred, or as the error that int then causes
+            f4 = kind == "progress" or ("bound a value of type int" in text and "Integer" in text)
+            if zero_trip(src) and f4 and any(kind in f["signature"]["kinds"] for f in findings):
                 masked += 1
                 continue
             res.violation({"property": "C14", "kind": kind, "text": text, "source": src}, f"{kind}: {text}"[:300])
